@@ -4,7 +4,9 @@ import OomdModel.CgStats
 /-! Driver glue for engine `fsread` (C15).
 
 `accepts` : the operational model (lazy per-tick cache, `OomdModel.CgStats` with `α = Float`) run on the
-            scenario's operations reproduces every value the real `CgroupContext` returned.
+            scenario's operations reproduces every value the real `CgroupContext` returned - exactly,
+            as long as no file changed inside the tick; tolerant of read order / eagerness after a
+            mid-tick file operation (`acceptTick`).
 `holds`   : evaluated on the implementation's trace alone:
   * `reference`  every value obtained while the files have not changed since the tick began equals the
                  stateless reference function `refAcc` of the files and of the tick history
@@ -398,6 +400,68 @@ def refArch (cfg : Params Float) (ticks : Array TickInfo) (sys : Nat → SysCtx 
           pg := if touchedAny prev cg ["pg_scan_cumulative", "pg_scan_rate"] then (refPgScanCum e p).toOption else none }
     | _, _ => Arch.empty
 
+def kidsRef (e : RefEnv Float) (p : RPath) : Json :=
+  match e.w.openDir p with
+  | none => Json.mkObj [("ctx", Json.bool false)]
+  | some _ =>
+    let names := match refChildren e p with | .ok l => l | _ => []
+    Json.mkObj [("ctx", Json.bool true), ("kids", mkStrs (sortStrs (names.map fun nm => relPath ((nm :: p).map l2s))))]
+
+/-- The acceptor for one tick.  Before the first file operation inside the tick the operational model
+is deterministic and the comparison is exact.  After it, *when* a file was read becomes visible
+(lazy / eager caching, order of reads inside an accessor - all harmless): a value obtained there is
+accepted if it is the operational model's value or the reference value of the files as they were at
+some moment since the tick began; `cgroups()` must lie between "contexts handed out in this tick"
+and "cgroups that existed at some moment of this tick".  Temporal values after a tick with
+mid-tick file operations are not compared (their archive depends on the read times of that tick). -/
+def acceptTick (env0 : RefEnv Float) (fs0 : FS) (histDirty : Bool) (tick : Json) (mops iops : List Json)
+    (ids : IdMap) : Bool × IdMap :=
+  let (ok, ids, _, _) := ((jarr tick "ops").zip (mops.zip iops)).foldl
+    (fun (acc : Bool × IdMap × List FS × List String) y =>
+      let (ok, ids, snaps, have_) := acc
+      let (op, m, i) := y
+      let k := jstr op "op"
+      let fsNow := snaps.headD fs0
+      if FS.isFsop k then (ok, ids, fsNow.apply op :: snaps, have_) else
+      let clean := snaps.length ≤ 1
+      let envs : List (RefEnv Float) := snaps.map fun fs => { env0 with w := fs.world }
+      match k with
+      | "get" =>
+        let cg := relPath (FS.comps (jstr op "cg")).reverse
+        let p := rpOf (jstr op "cg")
+        let ictx := asBool (jobj i "ctx")
+        let mctx := asBool (jobj m "ctx")
+        let ctxOk := ictx == mctx || (!clean && snaps.any fun fs => ((fs.world).openDir p).isSome == ictx)
+        let have_ := if ictx then cg :: have_ else have_
+        if !ictx then (ok && ctxOk, ids, snaps, have_) else
+        let names := jstrs op "f"
+        let iv := jarr i "v"
+        let mv := if mctx then jarr m "v" else names.map fun _ => Json.null
+        if iv.length != names.length then (false, ids, snaps, have_) else
+        let (ok2, ids) := (names.zip (mv.zip iv)).foldl (fun (acc : Bool × IdMap) x =>
+          let (name, a, b) := x
+          if isTemporal name && histDirty then acc
+          else if name == "id" then (if clean then (acc.1, acc.2.add a b) else acc)
+          else if a == b then acc
+          else if clean then (false, acc.2)
+          else match accOf name with
+            | none => (false, acc.2)
+            | some ac => (acc.1 && envs.any (fun e => resJson (refAcc e p ac) == b), acc.2)) (true, ids)
+        (ok && ctxOk && ok2, ids, snaps, have_)
+      | "kids" =>
+        let p := rpOf (jstr op "cg")
+        let good := m == i || (!clean && envs.any fun e => kidsRef e p == i)
+        let have_ := if asBool (jobj i "ctx") then relPath (FS.comps (jstr op "cg")).reverse :: (jstrs i "kids") ++ have_ else have_
+        (ok && good, ids, snaps, have_)
+      | "list" =>
+        let listed := (asArr i).map asStr
+        let lower := have_.all fun c => listed.contains c
+        let upper := listed.all fun c => snaps.any fun fs => (fs.find (FS.comps c).reverse).isSome
+        (ok && lower && upper, ids, snaps, have_)
+      | _ => (ok && m == i, ids, snaps, have_))
+    (true, ids, [fs0], [])
+  (ok, ids)
+
 structure Hold where
   viol : List String := []
   ids : IdMap := {}
@@ -422,19 +486,6 @@ def handle (j : Json) : Json :=
   let outcome := jstr tr "outcome"
   let implThrow := implTicks.any fun ops => ops.any fun r => (jarr r "v").any fun v => jhas v "throw"
   let implCrashed := outcome != "ok" || implThrow
-  -- accepts
-  let (same, ids) := (ticksJ.zip (run.out.zip implTicks)).foldl (fun (acc : Bool × IdMap) x =>
-    let (tick, mops, iops) := x
-    ((jarr tick "ops").zip (mops.zip iops)).foldl (fun (acc : Bool × IdMap) y =>
-      let (op, m, i) := y
-      let (eq, ids) := cmpOp op m i acc.2
-      (acc.1 && eq, ids)) acc) (true, {})
-  let shapeOk := run.out.length == implTicks.length &&
-    (run.out.zip implTicks).all fun x => x.1.length == x.2.length
-  let accepts :=
-    match run.crash with
-    | some _ => implCrashed
-    | none => !implCrashed && shapeOk && same && ids.ok && jnat tr "err_mismatch" == 0
   -- holds: per-tick snapshots
   let (infos, _) := ticksJ.foldl (fun (acc : Array TickInfo × FS) tick =>
     let fs0 := (jarr tick "pre").foldl FS.apply acc.2
@@ -446,6 +497,24 @@ def handle (j : Json) : Json :=
   let sysRes := fun n => refSys cfg infos n
   let sysAt := fun n => match sysRes n with | .ok sx => sx | _ => SysCtx.init
   let refCrash := (List.range infos.size).any fun n => (sysRes n).isCrash
+  -- accepts: exact on the part of a tick before its first file operation; tolerant of read order and
+  -- eagerness afterwards (see `acceptTick`)
+  let (same, ids) := ((List.range ticksJ.length).zip (ticksJ.zip (run.out.zip implTicks))).foldl
+    (fun (acc : Bool × IdMap) x =>
+      let (n, tick, mops, iops) := x
+      match infos[n]? with
+      | none => acc
+      | some info =>
+        let histDirty := (List.range n).any fun k => match infos[k]? with | some t => t.dirty | none => false
+        let env : RefEnv Float := { w := info.fs.world, sys := sysAt n, cfg := cfg, arch := refArch cfg infos sysAt n }
+        let (ok, ids) := acceptTick env info.fs histDirty tick mops iops acc.2
+        (acc.1 && ok, ids)) (true, {})
+  let shapeOk := run.out.length == implTicks.length &&
+    (run.out.zip implTicks).all fun x => x.1.length == x.2.length
+  let accepts :=
+    match run.crash with
+    | some _ => implCrashed
+    | none => !implCrashed && shapeOk && same && ids.ok && jnat tr "err_mismatch" == 0
   let hold : Hold := if outcome != "ok" || refCrash then {} else
     ((List.range ticksJ.length).zip (ticksJ.zip implTicks)).foldl (fun (h : Hold) x =>
       let (n, tick, iops) := x
